@@ -11,8 +11,13 @@ threads perform arbitrary access sequences consistent with the classification, i
 * `C11_lock_table_guarded` — the lock facts regenerated from the current source (`Gen/Locks.lean`: which fields the
                          instance-facing methods of the sharedSync objects touch, and under which protection) contain
                          no unguarded access. Finite table, `decide`.
-* `C11_drf_table`      — hence threads that call those methods in any order and interleaving are data-race free
-                         (the table is the hypothesis that licenses the class `sharedSync`).
+* `C11_inventory_sync_covered` — the shared units the inventory of `Spec/C11.lean` allows instances to write are
+                         backed by synchronised access sites of that table.
+* `C11_drf_table`      — hence threads that pass through those access sites in any order and interleaving are
+                         data-race free (the table is the hypothesis that licenses the classes `sharedSync` / `sharedRO`).
+* `C11_unguarded_counterexample`, `C11_prefix_table_counterexample`, `C11_shared_write_counterexample` — the code
+                         before the three `fix:` commits (unguarded random sources; in-place metadata rendering) is
+                         refuted: rejected table, racy trace, cross-instance read.
 * `C11_gun_exclusive`  — guns of different instances are distinct objects and at no time are two `Shoot` calls in
                          progress on one gun, for every order of instance starts and instance moves.
 * `C11_no_cross_instance_effect` — what an instance reads from its own and from read-only shared objects (ammo,
@@ -23,6 +28,7 @@ set of a real `Shoot`, race-detector sweep); see `Drv/C11.lean`.
 -/
 import Pandora.Proofs.C11Exec
 import Pandora.Gen.Locks
+import Pandora.Spec.C11
 
 namespace Pandora.Props.C11
 open Pandora.Model.C11 Pandora.Proofs.C11 Pandora.Go
@@ -44,44 +50,40 @@ example :
     exec (initCfg (fun _ => Class.sharedSync 7) [[⟨0, true, 1⟩], [⟨0, true, 2⟩]]) [0, 1, 0, 1, 0, 1, 1, 1]
       = [.acq 0 7, .acc 0 0 true 1, .rel 0 7, .acq 1 7, .acc 1 0 true 2, .rel 1 7] := by decide
 
-example : Conflict (.acc 0 0 true 1) (.acc 1 0 true 2) := by decide
+example : Conflict (.acc 0 0 true 1) (.acc 1 0 true 2) := by simp [Conflict]
 
 /-- without the lock the same two writes are a data race: the trace is not consistent with any class of object 0
 that allows both threads to write it -/
 example : ¬ WF (fun _ => Class.sharedSync 7) noLocks [.acc 0 0 true 1, .acc 1 0 true 2] := by
   simp [WF, stepOk, noLocks]
 
+/-- **C11_unguarded_counterexample** (the code before `fix: NextIterator.Rand takes the iterator mutex` and
+`fix: RandStringRunes guards its shared random source`): two instances that use one random source without a lock
+perform two conflicting writes that happens-before does not order. -/
+theorem C11_unguarded_counterexample : ¬ DRF [.acc 0 0 true 0, .acc 1 0 true 0] := by
+  intro h
+  exact not_hb_two 0 1 0 true true 0 0 (by decide) 0 1 (h 0 1 _ _ (by decide) rfl rfl (by simp [Conflict]))
+
 /-! ### the regenerated lock facts -/
 
-/-- **C11_lock_table_guarded**: in the current source every access of the inventoried shared objects is inside a
-mutex section, atomic, through sync.Map / sync.Pool / a channel, or a read of a field frozen after set-up. -/
-theorem C11_lock_table_guarded : Pandora.Gen.Locks.table.all C11LockRow.guarded = true := by decide
+/-- **C11_lock_table_guarded**: in the current source every access site of the inventoried shared objects is inside a
+mutex section, atomic, through sync.Map / sync.Pool / a channel, or a read of a field frozen after set-up; and the
+sites of one object agree on its class (a frozen object has no write site at all). -/
+theorem C11_lock_table_guarded : c11TableOk Pandora.Gen.Locks.table = true := by decide
 
-/-- what a method does for one access site of the table: lock around it iff the source does -/
-def expandRow (oid : String → Nat) (t : Nat) (r : C11LockRow) : List Ev :=
-  if r.guarded then [.acq t (oid r.obj), .acc t (oid r.obj) r.write 0, .rel t (oid r.obj)]
-  else [.acc t (oid r.obj) r.write 0]
+/-- the regenerated table mentions the objects the sharing inventory (`Spec/C11.lean`) relies on -/
+example : Pandora.Gen.Locks.table.length ≥ 10 := by decide
 
-/-- every object is `sharedSync` under its own lock -/
-def clsSync : Nat → Class := fun o => Class.sharedSync o
-
-def rowOp (oid : String → Nat) (r : C11LockRow) : Op := { obj := oid r.obj, write := r.write, val := 0 }
-
-theorem expandRow_eq (oid : String → Nat) (t : Nat) (r : C11LockRow) (h : r.guarded = true) :
-    expandRow oid t r = expand clsSync t (rowOp oid r) := by
-  simp [expandRow, h, expand, clsSync, rowOp]
-
-/-- **C11_drf_table**: any number of threads, each calling access sites of the regenerated table in any order, under
-every schedule: data-race free. (Object identities `oid` are arbitrary; one lock per object is the weakest reading of
-"guarded".) -/
-theorem C11_drf_table (oid : String → Nat) (progs : List (List C11LockRow))
+/-- **C11_drf_table**: any number of instance threads, each passing through access sites of the regenerated table in
+any order and any number of times, under every schedule: data-race free. What a site does (`siteEvents`) is read off
+the table: the bare access where the source shows no protection, lock‥unlock around it otherwise. -/
+theorem C11_drf_table (progs : List (List C11LockRow))
     (hin : ∀ rows ∈ progs, ∀ r ∈ rows, r ∈ Pandora.Gen.Locks.table) (sched : List Nat) :
-    DRF (exec { held := noLocks, todo := progs.zipIdx.map fun (rows, t) => rows.flatMap (expandRow oid t) } sched) := by
-  have hg : ∀ rows ∈ progs, ∀ r ∈ rows, r.guarded = true := by
-    intro rows hr r hrr
-    exact (List.all_eq_true.mp C11_lock_table_guarded) r (hin rows hr r hrr)
-  have hcfg : ({ held := noLocks, todo := progs.zipIdx.map fun (rows, t) => rows.flatMap (expandRow oid t) } : Cfg)
-      = initCfg clsSync (progs.map fun rows => rows.map (rowOp oid)) := by
+    DRF (exec { held := noLocks,
+                todo := progs.zipIdx.map fun (rows, t) => rows.flatMap (siteEvents Pandora.Gen.Locks.table t) } sched) := by
+  have hcfg : ({ held := noLocks,
+                 todo := progs.zipIdx.map fun (rows, t) => rows.flatMap (siteEvents Pandora.Gen.Locks.table t) } : Cfg)
+      = initCfg (clsT Pandora.Gen.Locks.table) (progs.map fun rows => rows.map rowOp) := by
     simp only [initCfg, Cfg.mk.injEq, true_and]
     apply List.ext_getElem?
     intro i
@@ -91,13 +93,68 @@ theorem C11_drf_table (oid : String → Nat) (progs : List (List C11LockRow))
     | some rows =>
       simp only [Option.map_some, Nat.zero_add, Option.some.injEq, List.flatMap_map]
       have hmem : rows ∈ progs := List.mem_of_getElem? hp
-      apply List.flatMap_congr
+      apply flatMap_congr'
       intro r hr
-      exact expandRow_eq oid i r (hg rows hmem r hr)
+      exact siteEvents_eq _ C11_lock_table_guarded r (hin rows hmem r hr) i
   rw [hcfg]
   apply C11_drf_programs
-  intro t ops _ op _
-  simp [opOk, clsSync]
+  intro t ops hget op hop
+  simp only [List.getElem?_map] at hget
+  cases hp : progs[t]? with
+  | none => simp [hp] at hget
+  | some rows =>
+    simp only [hp, Option.map_some, Option.some.injEq] at hget
+    subst hget
+    obtain ⟨r, hr, hro⟩ := List.mem_map.mp hop
+    subst hro
+    exact rowOp_ok _ C11_lock_table_guarded r (hin rows (List.mem_of_getElem? hp) r hr) t
+
+/-- non-vacuity: two instances passing through the first three sites of the regenerated table, interleaved (a turn of a
+thread blocked on a lock is skipped) -/
+example : (exec { held := noLocks,
+                  todo := [Pandora.Gen.Locks.table.take 3, Pandora.Gen.Locks.table.take 3].zipIdx.map
+                    fun (rows, t) => rows.flatMap (siteEvents Pandora.Gen.Locks.table t) }
+                [0, 1, 0, 0, 1, 1, 1, 0, 1, 0, 0, 1, 0, 1, 1, 0, 0, 1, 1, 0, 1, 1, 0, 0]).length = 18 := by decide
+
+/-- the lock-table objects the sharing inventory (`Spec/C11.lean`) relies on for the units it classes `sync` -/
+def inventorySyncObjs : List String :=
+  Pandora.Spec.C11.inventory.flatMap fun e => match e.cls with
+    | .sync os => os
+    | _ => []
+
+/-- **C11_inventory_sync_covered**: every shared unit the inventory allows instances to write (the `[next]` counters,
+the `[rand]` source, the client-pool cursor) is backed by access sites in the regenerated table, all of them
+synchronised (class `sharedSync` under `clsT`, not merely frozen). -/
+theorem C11_inventory_sync_covered :
+    inventorySyncObjs.all (fun o =>
+      let rows := Pandora.Spec.C11.rowsOf Pandora.Gen.Locks.table o
+      !rows.isEmpty && rows.all fun r => c11RowOk Pandora.Gen.Locks.table r && !c11ObjFrozen Pandora.Gen.Locks.table r.oid) = true := by
+  decide
+
+example : inventorySyncObjs.length ≥ 3 := by decide
+
+/-- the lock facts as they were extracted from the code BEFORE the two `fix:` commits on the random sources -/
+def tablePreFix : List C11LockRow := [
+  ⟨0, "lib/mp.NextIterator.gs", "Next", false, .mutex "mx"⟩,
+  ⟨0, "lib/mp.NextIterator.gs", "Next", true, .mutex "mx"⟩,
+  ⟨1, "lib/mp.NextIterator.rnd", "Rand", true, .none⟩,
+  ⟨2, "lib/str.randSource", "RandStringRunes", true, .none⟩]
+
+/-- **C11_prefix_table_counterexample**: the pre-fix table is rejected, and two instances calling the pre-fix
+`NextIterator.Rand` once each produce (under the schedule 0,1) a trace with a data race. -/
+theorem C11_prefix_table_counterexample :
+    c11TableOk tablePreFix = false ∧
+    ¬ DRF (exec { held := noLocks,
+                  todo := [[tablePreFix[2]], [tablePreFix[2]]].zipIdx.map
+                    fun (rows, t) => rows.flatMap (siteEvents tablePreFix t) } [0, 1]) := by
+  refine ⟨by decide, ?_⟩
+  have : exec { held := noLocks,
+                todo := [[tablePreFix[2]], [tablePreFix[2]]].zipIdx.map
+                  fun (rows, t) => rows.flatMap (siteEvents tablePreFix t) } [0, 1]
+      = [.acc 0 1 true 0, .acc 1 1 true 0] := by decide
+  rw [this]
+  intro h
+  exact not_hb_two 0 1 1 true true 0 0 (by decide) 0 1 (h 0 1 _ _ (by decide) rfl rfl (by simp [Conflict]))
 
 /-! ### guns -/
 
@@ -108,9 +165,9 @@ theorem C11_gun_exclusive (acts : List Act) :
   have h := engRun_ok acts engInit ⟨by simp [engInit], by simp [engInit]⟩
   exact ⟨h.1, fun g => active_le_one g _ h.1⟩
 
-/-- non-vacuity: three instances, two of them inside `Shoot` at the same time — on different guns -/
-example : (engRun engInit [.start, .start, .move 0, .start, .move 2]).insts
-    = [⟨0, true⟩, ⟨1, false⟩, ⟨2, true⟩] := by decide
+/-- non-vacuity: a warm-up gun and three instances, two of them inside `Shoot` at the same time — on different guns -/
+example : (engRun engInit [.warmup, .start, .start, .move 0, .start, .move 2]).insts
+    = [⟨1, true⟩, ⟨2, false⟩, ⟨3, true⟩] := by decide
 
 /-! ### isolation -/
 
@@ -127,5 +184,18 @@ example :
     let cls : Nat → Class := fun o => if o = 3 then .sharedRO else if o = 4 then .loc 0 else if o = 5 then .loc 1 else .sharedSync 9
     view cls 0 (fun _ => 42) [.acc 0 4 true 7, .acc 1 5 true 8, .acq 1 9, .acc 1 9 true 1, .rel 1 9, .acc 0 3 false 0, .acc 0 4 false 0]
       = [(3, 42), (4, 7)] := by decide
+
+/-- **C11_shared_write_counterexample** (the code before `fix: gRPC scenario gun renders call metadata into a copy`):
+when an instance writes an object of the shared definition (the step's metadata map, object 5), the trace is not
+consistent with the class `sharedRO`, the two accesses race, and instance 1 reads instance 0's rendered value
+instead of the definition's. -/
+theorem C11_shared_write_counterexample :
+    let cls : Nat → Class := fun _ => .sharedRO
+    let tr : List Ev := [.acc 0 5 true 7, .acc 1 5 false 0]
+    ¬ WF cls noLocks tr ∧ ¬ DRF tr ∧
+    view cls 1 (fun _ => 42) tr ≠ view cls 1 (fun _ => 42) (tr.filter fun e => e.thread == 1) := by
+  refine ⟨by simp [WF, stepOk], ?_, by decide⟩
+  intro h
+  exact not_hb_two 0 1 5 true false 7 0 (by decide) 0 1 (h 0 1 _ _ (by decide) rfl rfl (by simp [Conflict]))
 
 end Pandora.Props.C11
